@@ -138,6 +138,8 @@ func (e *e6Ctx) effects(isObj func(ssa.Value) bool, depth int) ([]string, map[st
 	pre := map[string]bool{}
 	var lines []string
 	f := e.fn
+	var repl [][2]string           // renderings of an inlined helper's results → what the helper returns
+	dropLines := map[string]bool{} // lines that only hand an inlined helper's error on
 	for _, b := range f.Blocks {
 		for _, in := range b.Instrs {
 			switch x := in.(type) {
@@ -189,6 +191,15 @@ func (e *e6Ctx) effects(isObj func(ssa.Value) bool, depth int) ([]string, map[st
 				lines = append(lines, e.conds(b, pre)+"set "+fld+" := "+e.path(x.Val))
 			case *ssa.Call:
 				cc := x.Common()
+				if e.allCalls && e.depth < 2 {
+					if r2, d2, ok := e.inlineResultHelper(x, b, pre, &lines, depth); ok {
+						repl = append(repl, r2...)
+						for _, d := range d2 {
+							dropLines[d] = true
+						}
+						continue
+					}
+				}
 				var recv ssa.Value
 				name := ""
 				var args []ssa.Value
@@ -368,6 +379,35 @@ func (e *e6Ctx) effects(isObj func(ssa.Value) bool, depth int) ([]string, map[st
 				if okRet {
 					lines = append(lines, e.conds(b, pre)+"return "+strings.Join(rs, ", "))
 				}
+			}
+		}
+	}
+	// results of inlined helpers: what the helper returns stands for the call's results; handing its error on is the
+	// helper's own failing returns (already listed)
+	if len(repl) > 0 {
+		var out []string
+		for _, l := range lines {
+			if dropLines[l] {
+				continue
+			}
+			for _, rp := range repl {
+				l = strings.ReplaceAll(l, rp[0], rp[1])
+			}
+			out = append(out, l)
+		}
+		lines = out
+		for k := range pre {
+			nk := k
+			for _, rp := range repl {
+				nk = strings.ReplaceAll(nk, rp[0], rp[1])
+			}
+			if dropLines["pre:"+k] {
+				delete(pre, k)
+				continue
+			}
+			if nk != k {
+				delete(pre, k)
+				pre[nk] = true
 			}
 		}
 	}
@@ -817,6 +857,17 @@ func e6Check(c *Ctx, rule, name string, pos string, got []string, rows map[strin
 		r.OK(rule, name+": effects equal the reviewed recipe", pos, "E6 extraction = spec/builders.json", strings.Join(got, " ; "))
 		return
 	}
+	// a predicate whose reviewed row is the scan form may be written loop-free: same truth table, same verdict
+	if strings.HasSuffix(name, ".IsMessageType$1") {
+		for _, f := range c.P.ModuleFuncs() {
+			if shortName(f) == name {
+				if what, _ := isMembershipPredicate(f); what != "" {
+					r.OK(rule, name+": effects equal the reviewed recipe", pos, "same predicate as the reviewed row, decided by truth table", what)
+					return
+				}
+			}
+		}
+	}
 	// diff
 	var diff []string
 	gm, wm := map[string]bool{}, map[string]bool{}
@@ -1191,4 +1242,89 @@ func (e *e6Ctx) helperAlternatives(cl *ssa.Call, pre map[string]bool) ([][2]stri
 		out = append(out, [2]string{sub.conds(rt.Block(), subPre), sub.path(rt.Results[0])})
 	}
 	return out, true
+}
+
+// inlineResultHelper: cl calls an unexported function or method of the same package that returns (values…, error), is
+// called once from here, and has exactly one unconditional-success return: its effects are this function's effects
+// (parameters replaced by the arguments), its success values stand for the call's results, and a return that hands its
+// error on unchanged is the helper's own failing returns. (`resp, err := c.requestAck(ctx, req, offer); if err != nil { return nil, err }`)
+func (e *e6Ctx) inlineResultHelper(cl *ssa.Call, b *ssa.BasicBlock, pre map[string]bool, lines *[]string, depth int) ([][2]string, []string, bool) {
+	cc := cl.Common()
+	sf := cc.StaticCallee()
+	if sf == nil || cc.IsInvoke() || !inModule(sf) || sf.Blocks == nil || token.IsExported(sf.Name()) || sf.Parent() != nil || funcPkg(sf) != funcPkg(e.fn) || sf == e.fn || len(sf.Blocks) > 16 {
+		return nil, nil, false
+	}
+	res := sf.Signature.Results()
+	if res.Len() < 2 || !isErrorType(res.At(res.Len()-1).Type()) || len(cc.Args) != len(sf.Params) {
+		return nil, nil, false
+	}
+	n := 0
+	allInstrs(e.fn, func(in ssa.Instruction) {
+		if c2, ok := in.(ssa.CallInstruction); ok && c2.Common().StaticCallee() == sf {
+			n++
+		}
+	})
+	if n != 1 || inCycle(b) {
+		return nil, nil, false
+	}
+	sub := newE6(e.c, sf)
+	sub.depth, sub.allCalls = e.depth+1, true
+	for i, p := range sf.Params {
+		d := e.argDesc(cc.Args[i])
+		if i == 0 && sf.Signature.Recv() != nil && d == "recv" {
+			continue // the same receiver: renders as recv on both sides
+		}
+		sub.px.subst[e.c.Sx().Of(p).String()] = d
+	}
+	subLines, subPre := sub.effects(func(ssa.Value) bool { return false }, depth+1)
+	var succ []string
+	var body []string
+	for _, l := range subLines {
+		if strings.HasPrefix(l, "return ") {
+			if succ != nil {
+				return nil, nil, false
+			}
+			parts := strings.Split(strings.TrimPrefix(l, "return "), ", ")
+			if parts[len(parts)-1] != "nil" {
+				return nil, nil, false
+			}
+			succ = parts[:len(parts)-1]
+			continue
+		}
+		if strings.Contains(l, "] return ") {
+			return nil, nil, false // conditional success values: not a single-valued helper
+		}
+		body = append(body, l)
+	}
+	if succ == nil || len(succ) != res.Len()-1 {
+		return nil, nil, false
+	}
+	base := e.conds(b, pre)
+	for p := range subPre {
+		pre[p] = true
+	}
+	for _, l := range body {
+		own, rest := "", l
+		if strings.HasPrefix(l, "[if ") {
+			if j := strings.Index(l, "] "); j > 0 {
+				own, rest = l[:j+2], l[j+2:]
+			}
+		}
+		*lines = append(*lines, mergeConds(base, own)+rest)
+	}
+	var repl [][2]string
+	var drops []string
+	for k := 0; k < res.Len(); k++ {
+		ex := extractOf(cl, k)
+		if ex == nil {
+			continue
+		}
+		from := e.path(ex)
+		if k < res.Len()-1 {
+			repl = append(repl, [2]string{from, succ[k]})
+		} else {
+			drops = append(drops, "fails with "+from, "pre:"+canonCond("("+from+"==const:nil:error)", true))
+		}
+	}
+	return repl, drops, true
 }
